@@ -40,7 +40,15 @@ NL, NR = 5, 4  # rows of the left / right frame
 HOWS = ("inner", "left", "right", "outer", "leftsemi")
 # join strategy = (broadcast, shuffle_method).  None/None = dask's own choice (hash join via the default 'disk' shuffle
 # unless its partition-count heuristic picks a broadcast join)
-STRATS = {"bT": (True, None), "bF-tasks": (False, "tasks"), "bF-disk": (False, "disk"), "bN": (None, None), "b0.9": (0.9, "tasks")}
+STRATS = {
+    "bT": (True, None),
+    "bF-tasks": (False, "tasks"),
+    "bF-disk": (False, "disk"),
+    "bN": (None, None),
+    "bN-tasks": (None, "tasks"),
+    "b0.9": (0.9, "tasks"),
+}
+JOIN_STRATS = ("bN", "bN-tasks")  # DataFrame.join has no broadcast argument
 
 MERGE_VARIANTS = {
     "quick": ("int_on", "nan_lr", "two_on", "idx_idx", "idx_unsorted", "col_idx", "mixed", "join_on"),
@@ -55,6 +63,11 @@ CONCAT_VARIANTS = {
     "quick": ("same", "cols", "dtype", "series"),
     "thorough": ("same", "cols", "dtype", "series", "three", "str"),
 }
+
+
+# leftsemi is not enumerated where it has no defined result: pandas' DataFrame.join has no such `how`, and when on= names
+# an index level of the left frame the layout of a "left row" (level kept as index or turned into a column) is undefined
+NO_SEMI = ("join_idx", "join_on", "idxname_on")
 
 
 def RULE(tier):
@@ -222,7 +235,9 @@ def shards(tier):
     out = []
     for var in MERGE_VARIANTS[tier]:
         for how in HOWS:
-            for st in MERGE_STRATS[tier]:
+            if how == "leftsemi" and var in NO_SEMI:
+                continue
+            for st in JOIN_STRATS if var.startswith("join") else MERGE_STRATS[tier]:
                 out.append(("merge", var, how, st))
     for var in ASOF_VARIANTS[tier]:
         for direction in ("backward", "forward", "nearest"):
